@@ -3363,6 +3363,228 @@ fn storm_phase(run: &Run, scratch: &Scratch, seed: u64, n_jobs: usize, parallel:
 	(runs_done, enl)
 }
 
+// ===================================================================== a reader that stays (long-held iterator across a due enlargement)
+
+/// --worker-holder seed dir batch_kb out
+/// A writer fills a fresh store to just below the point where its map has to grow; another thread then opens an
+/// iterator and keeps it. The enlargement has to wait for that reader, and the writer for the enlargement: nothing may
+/// FAIL meanwhile. The reader lets go once the writer has made no progress for 12 s (or has finished); the writer must
+/// then complete all its batches, and everything committed must be there.
+fn worker_holder(args: &[String]) -> i32 {
+	install_logger();
+	no_core_dumps();
+	init_thread();
+	let seed: u64 = args[0].parse().unwrap_or(1);
+	let dir = args[1].clone();
+	let batch_kb: u64 = args[2].parse().unwrap_or(30);
+	let out = args[3].clone();
+	let _ = std::fs::create_dir_all(&dir);
+	let store = match open_store(&dir, None) {
+		Ok(s) => Arc::new(s),
+		Err(e) => {
+			let _ = std::fs::write(&out, json!({"broken": format!("Store::new: {:?}", e)}).to_string());
+			return 0;
+		}
+	};
+	let _ = verif_hooks::resize_stats_take();
+	let per_batch = ((batch_kb * 1024) / 700).max(1); // values of 500..700 bytes
+	let target_keys = (3 * MIB) / 620;
+	let progress = Arc::new(AtomicU64::new(0));
+	let done = Arc::new(AtomicBool::new(false));
+	let release = Arc::new(AtomicBool::new(false));
+	let holding = Arc::new(AtomicBool::new(false));
+	let t0 = Instant::now();
+	let mut j = 0u64;
+	let mut werr: Option<String> = None;
+	let mut put_batch = |j: &mut u64| -> Result<(), String> {
+		let mut b = store.batch().map_err(|e| format!("batch:{}", error_class(&e)))?;
+		for _ in 0..per_batch {
+			let v = enc_val(&storm_val(*j ^ (seed << 40)));
+			b.put(SPACE_KEYS[1], &storm_key(*j), &v).map_err(|e| format!("put:{}", error_class(&e)))?;
+			*j += 1;
+		}
+		b.commit().map_err(|e| format!("commit:{}", error_class(&e)))
+	};
+	// phase 1: up to ~80 % of the initial 1 MiB map, nobody else around
+	while data_mdb_size(&dir) < 800 * 1024 && werr.is_none() {
+		if let Err(e) = put_batch(&mut j) {
+			werr = Some(format!("prefill:{}", e));
+		}
+	}
+	let prefill_keys = j;
+	// phase 2: the reader arrives and stays
+	let holder = {
+		let (store, release, holding) = (store.clone(), release.clone(), holding.clone());
+		std::thread::spawn(move || -> (u64, Option<String>) {
+			init_thread();
+			let it = store.iter(SPACE_KEYS[1], |k, v| Ok((k.to_vec(), v.to_vec())));
+			let mut it = match it {
+				Ok(i) => i,
+				Err(e) => {
+					holding.store(true, Ordering::SeqCst);
+					return (0, Some(format!("iter:{}", error_class(&e))));
+				}
+			};
+			let mut seen = 0u64;
+			if it.next().is_some() {
+				seen += 1;
+			}
+			holding.store(true, Ordering::SeqCst);
+			let t = Instant::now();
+			while !release.load(Ordering::SeqCst) && t.elapsed() < Duration::from_secs(90) {
+				std::thread::sleep(Duration::from_millis(20));
+			}
+			// the snapshot is still the one taken when the iterator was opened
+			let mut err = None;
+			for item in it {
+				match item {
+					Ok(_) => seen += 1,
+					Err(e) => {
+						err = Some(format!("iter_item:{}", error_class(&e)));
+						break;
+					}
+				}
+			}
+			(seen, err)
+		})
+	};
+	while !holding.load(Ordering::SeqCst) {
+		std::thread::sleep(Duration::from_millis(5));
+	}
+	let watcher = {
+		let (progress, done, release) = (progress.clone(), done.clone(), release.clone());
+		std::thread::spawn(move || -> u64 {
+			let mut last = progress.load(Ordering::SeqCst);
+			let mut since = Instant::now();
+			let mut longest = 0u64;
+			loop {
+				std::thread::sleep(Duration::from_millis(50));
+				let p = progress.load(Ordering::SeqCst);
+				if p != last {
+					last = p;
+					since = Instant::now();
+				}
+				longest = longest.max(since.elapsed().as_millis() as u64);
+				if done.load(Ordering::SeqCst) || since.elapsed() > Duration::from_secs(12) {
+					release.store(true, Ordering::SeqCst);
+				}
+				if done.load(Ordering::SeqCst) {
+					return longest;
+				}
+			}
+		})
+	};
+	while j < target_keys && werr.is_none() && t0.elapsed() < Duration::from_secs(150) {
+		match put_batch(&mut j) {
+			Ok(()) => {
+				progress.fetch_add(1, Ordering::SeqCst);
+			}
+			Err(e) => werr = Some(e),
+		}
+	}
+	let written = if werr.is_some() { j - (j % per_batch).min(j) } else { j };
+	done.store(true, Ordering::SeqCst);
+	let longest_stall_ms = watcher.join().unwrap_or(0);
+	let (seen, herr) = holder.join().unwrap_or((0, Some("holder thread panicked".into())));
+	let (resizes, live) = verif_hooks::resize_stats_take();
+	// everything committed is there (keys of a failed batch excluded)
+	let committed = if werr.is_some() { (j / per_batch).saturating_sub(1) * per_batch } else { j };
+	let _ = written;
+	let mut missing = 0u64;
+	for k in 0..committed {
+		if k % 5 == 0 {
+			match store.get_ser::<Val>(SPACE_KEYS[1], &storm_key(k), None) {
+				Ok(Some(v)) if v == storm_val(k ^ (seed << 40)) => {}
+				_ => missing += 1,
+			}
+		}
+	}
+	let res = json!({
+		"seed": seed, "batch_kb": batch_kb, "keys_before_the_reader": prefill_keys, "keys": j, "target_keys": target_keys,
+		"writer_error": werr, "holder_error": herr, "holder_snapshot_items": seen,
+		"longest_writer_stall_ms": longest_stall_ms, "enlargements": resizes,
+		"enlargements_with_live_transactions": live.len(), "missing_at_the_end": missing, "ms": t0.elapsed().as_millis() as u64,
+	});
+	let _ = std::fs::write(&out, res.to_string());
+	0
+}
+
+fn holder_phase(run: &Run, scratch: &Scratch, seed: u64, jobs: &[u64]) -> u64 {
+	let results: Mutex<Vec<(usize, ProcOut, Option<Value>)>> = Mutex::new(vec![]);
+	std::thread::scope(|sc| {
+		for (i, kb) in jobs.iter().enumerate() {
+			let results = &results;
+			sc.spawn(move || {
+				let dir = scratch.sub(&format!("holder-{}", i));
+				let out = scratch.sub(&format!("holder-{}.json", i));
+				let r = run_worker(
+					&["--worker-holder".to_string(), (seed ^ ((i as u64 + 1) << 20)).to_string(), dir.clone(), kb.to_string(), out.clone()],
+					&format!("{}.log", dir),
+					Duration::from_secs(300),
+				);
+				let v = read_json(&out);
+				let _ = std::fs::remove_dir_all(&dir);
+				results.lock().unwrap().push((i, r, v));
+			});
+		}
+	});
+	let mut waited = 0u64;
+	let mut results = results.into_inner().unwrap();
+	results.sort_by_key(|r| r.0);
+	for (i, r, v) in results {
+		let kb = jobs[i];
+		let replay = json!({"scenario": "long-held iterator across a due enlargement", "batch_kb": kb, "cmd": format!("c18 --worker-holder {} <dir> {} <out>", seed ^ ((i as u64 + 1) << 20), kb)});
+		let v = match (r.code, r.signal, r.timed_out, v) {
+			(Some(0), _, false, Some(v)) if v.get("broken").is_none() => v,
+			(_, Some(sig), false, _) => {
+				run.violation(&format!("holder;oracle=process_survives;signal={}", sig), &format!("worker killed by signal {}: {}", sig, r.tail), replay);
+				continue;
+			}
+			(c, sg, to, v) => {
+				run.inconclusive(&format!("long-holder worker {}: exit {:?} signal {:?} timed_out {} result {:?}", i, c, sg, to, v.map(|x| x.to_string())));
+				continue;
+			}
+		};
+		let u = |k: &str| v[k].as_u64().unwrap_or(0);
+		run.count("holder.runs", 1);
+		run.count("holder.enlargements", u("enlargements"));
+		run.set_max("holder.longest_writer_stall_ms", u("longest_writer_stall_ms"));
+		let stalled = u("longest_writer_stall_ms") >= 5_000;
+		if stalled {
+			waited += 1;
+			run.count("holder.runs_in_which_the_writer_waited_5s_or_more_for_the_reader", 1);
+		}
+		run.eval(&format!("holder;batch_kb={};waited={}", kb, stalled as u8), true);
+		if i == 0 {
+			run.sample(json!({"scenario": "long-held iterator across a due enlargement", "result": v}));
+		}
+		if let Some(w) = v["writer_error"].as_str() {
+			run.violation(
+				&format!("holder;oracle=no_operation_fails_while_another_thread_iterates;writer={}", w),
+				&format!("while another thread kept an iterator open across a due enlargement of the map, the writer failed: {} (after {} of {} keys, batches of {} KB)", w, u("keys"), u("target_keys"), kb),
+				replay.clone(),
+			);
+		}
+		if let Some(w) = v["holder_error"].as_str() {
+			run.violation(&format!("holder;oracle=iterator_completes;class={}", w), &format!("the long-held iterator failed: {}", w), replay.clone());
+		}
+		if v["writer_error"].is_null() && u("holder_snapshot_items") != u("keys_before_the_reader") {
+			run.violation(
+				"holder;oracle=iterator_sees_its_snapshot",
+				&format!("the iterator opened when {} keys were committed delivered {} items after being held", u("keys_before_the_reader"), u("holder_snapshot_items")),
+				replay.clone(),
+			);
+		}
+		if u("missing_at_the_end") > 0 {
+			run.violation("holder;oracle=committed_keys_present_at_the_end", &format!("{} sampled committed keys missing or wrong", u("missing_at_the_end")), replay.clone());
+		}
+		if u("enlargements_with_live_transactions") > 0 {
+			run.violation("holder;oracle=no_live_transaction_while_the_map_is_enlarged", "the map was enlarged while the held iterator (or another transaction) was live", replay.clone());
+		}
+	}
+	waited
+}
+
 fn no_core_dumps() {
 	unsafe {
 		let lim = libc::rlimit {
@@ -4209,6 +4431,7 @@ fn main() {
 		("--worker-dump", worker_dump),
 		("--worker-probe", worker_probe),
 		("--worker-storm", worker_storm),
+		("--worker-holder", worker_holder),
 	] {
 		if let Some(i) = raw.iter().position(|a| a == flag) {
 			std::process::exit(f(&raw[i + 1..]));
@@ -4361,6 +4584,7 @@ fn main_full(run: &Run, scratch: &Scratch, seed: u64) {
 	let crash_next = AtomicUsize::new(0);
 	let probe: Mutex<Option<Value>> = Mutex::new(None);
 
+	let holder_waited = AtomicU64::new(0);
 	std::thread::scope(|sc| {
 		// (1) single-thread sessions: one worker process (own hang watchdog)
 		{
@@ -4393,6 +4617,14 @@ fn main_full(run: &Run, scratch: &Scratch, seed: u64) {
 				}
 				let cs = crash_enumerate(&base, crash_jobs[i].0, crash_jobs[i].1);
 				crash_total.lock().unwrap().push(cs);
+			});
+		}
+		// (5) long-held iterators across a due enlargement (mostly waiting: run next to everything else)
+		{
+			let holder_waited = &holder_waited;
+			sc.spawn(move || {
+				let n = holder_phase(run, scratch, seed, if tier.pick(0, 1) == 0 { &[30, 60] } else { &[30, 60, 30, 90] });
+				holder_waited.store(n, Ordering::SeqCst);
 			});
 		}
 		// informational probe
@@ -4620,6 +4852,7 @@ fn main_full(run: &Run, scratch: &Scratch, seed: u64) {
 	);
 	run.require("multi-thread workers completed", done, n_mt as u64);
 	run.require("reader-storm runs completed", storm_runs, tier.pick(10, 100));
+	run.require("runs in which the writer waited 5 s or more for a reader that kept its iterator", holder_waited.load(Ordering::SeqCst), 1);
 	run.require("map enlargements while 6 readers kept read transactions coming", storm_enl, tier.pick(40, 400));
 	run.require("map resizes completed, minimum over workers", m("mt_resizes_completed"), tier.pick(2, 4));
 	run.require("largest single-snapshot iteration (keys), minimum over workers", m("mt_max_snapshot_keys_space0"), 10_001);
